@@ -4,8 +4,9 @@
    (Err EOther) where the equivalence "compiled = interpreted" is not provable:
 
      - a marker operator (22[2345]255 / 232255) while a 204YYY is in force (D14),
-       while the 222000 status is not "NA", or after a 203000 that cancelled a
-       203YYY definition (D5);
+       while the 222000 status is "processing" (D27) or "waiting" with a class 33
+       element among the possible back references, or after a 203000 that
+       cancelled a 203YYY definition (D5);
      - a replication whose body does not leave the compile-time registers as it
        found them, unless compiling the body a second time, from the registers
        the first pass left, records the same statements and then leaves the
@@ -92,28 +93,54 @@ Definition strict_eqb (a b : regs) : bool :=
    compile-time dictionary is shorter than that exactly when a 203000 cancelled
    a definition ("dirty"): from then on the run-time dictionary of a compiled run
    (which never replays 203000) holds more than the interpreter's. *)
-Record cks := mkCk { ck_code : stmts; ck_ndef : nat }.
+(* [ck_c33]: a plain element descriptor of class 33 may have been processed so far
+   (then a back reference may point at one; while it is false, the bitmapped
+   element of a marker operator cannot be of class 33). *)
+Record cks := mkCk { ck_code : stmts; ck_ndef : nat; ck_c33 : bool }.
+
+Definition dd_c33 (d : ddesc) : bool :=
+  match d with DDElem e => (desc_X (e_id e) =? 33)%N | _ => false end.
+
+Definition stmt_c33 (x : stmt) : bool :=
+  match x with
+  | SNumeric dd _ _ _ | SNumericNR dd _ _ _ | SString dd _ | SCodeflag dd _ _
+  | SNewRefval dd _ | SConstant dd _ => dd_c33 dd
+  | _ => false
+  end.
 
 Definition dirty_of (r : regs) (nd : nat) : bool := negb (length (r_new_refvals r) =? nd)%nat.
 Definition dirty (s : ws cks) : bool := dirty_of (w_r s) (ck_ndef (w_c s)).
 
-Definition cemit (x : stmt) (s : ws cks) : result (ws cks) :=
-  Ok (mkWs (w_r s) (mkCk (stmts_snoc (ck_code (w_c s)) x) (ck_ndef (w_c s)))).
+Definition cemit_st (x : stmt) (s : ws cks) : ws cks :=
+  mkWs (w_r s) (mkCk (stmts_snoc (ck_code (w_c s)) x) (ck_ndef (w_c s))
+                     (if stmt_c33 x then true else ck_c33 (w_c s))).
+Definition cemit (x : stmt) (s : ws cks) : result (ws cks) := Ok (cemit_st x s).
 
 Definition seq_eqb (a b : ws cks) : bool :=
-  strict_eqb (w_r a) (w_r b) && Bool.eqb (dirty a) (dirty b).
+  strict_eqb (w_r a) (w_r b) && Bool.eqb (dirty a) (dirty b) && Bool.eqb (ck_c33 (w_c a)) (ck_c33 (w_c b)).
 
-Definition fresh (s : ws cks) : ws cks := mkWs (w_r s) (mkCk SNil (ck_ndef (w_c s))).
+Definition fresh (s : ws cks) : ws cks := mkWs (w_r s) (mkCk SNil (ck_ndef (w_c s)) (ck_c33 (w_c s))).
 
-Definition chk_loop (allow2 : bool) (ln : loopn) (body : ws cks -> result (ws cks)) (s : ws cks)
+Definition chk_loop1 (allow2 : bool) (ln : loopn) (body : ws cks -> result (ws cks)) (s : ws cks)
   : result (ws cks) :=
   let* s1 := body (fresh s) in
-  let done := Ok (mkWs (w_r s1) (mkCk (stmts_snoc (ck_code (w_c s)) (SLoop ln (ck_code (w_c s1)))) (ck_ndef (w_c s1)))) in
+  let done := Ok (mkWs (w_r s1) (mkCk (stmts_snoc (ck_code (w_c s)) (SLoop ln (ck_code (w_c s1))))
+                                      (ck_ndef (w_c s1)) (ck_c33 (w_c s1)))) in
   if seq_eqb s s1 then done
   else if allow2 then
     let* s2 := body (fresh s1) in
     if seq_eqb s1 s2 && stmts_eqb (ck_code (w_c s1)) (ck_code (w_c s2)) then done else Err EOther
   else Err EOther.
+
+(* the class 33 flag is monotone: the body is compiled once to learn whether it sets
+   the flag, then checked (again) with the flag every pass may start from *)
+Definition set_c33 (b : bool) (s : ws cks) : ws cks :=
+  mkWs (w_r s) (mkCk (ck_code (w_c s)) (ck_ndef (w_c s)) b).
+
+Definition chk_loop (allow2 : bool) (ln : loopn) (body : ws cks -> result (ws cks)) (s : ws cks)
+  : result (ws cks) :=
+  let* s1 := body (fresh s) in
+  chk_loop1 allow2 ln body (set_c33 (ck_c33 (w_c s) || ck_c33 (w_c s1)) s).
 
 Definition chk_handlers (nzf : bool) : handlers cks := {|
   h_numeric := fun dd a b c => cemit (SNumeric dd a b c);
@@ -122,7 +149,8 @@ Definition chk_handlers (nzf : bool) : handlers cks := {|
   h_codeflag := fun dd a b => cemit (SCodeflag dd a b);
   h_new_refval := fun dd a s =>
     Ok (mkWs (set_new_refvals (refval_set (dd_id dd) None (r_new_refvals (w_r s))) (w_r s))
-             (mkCk (stmts_snoc (ck_code (w_c s)) (SNewRefval dd a)) (S (ck_ndef (w_c s)))));
+             (mkCk (stmts_snoc (ck_code (w_c s)) (SNewRefval dd a)) (S (ck_ndef (w_c s)))
+                   (if dd_c33 dd then true else ck_c33 (w_c s))));
   h_constant := fun dd v => cemit (SConstant dd v);
   h_define_bitmap := fun reuse => cemit (SDefineBitmap reuse);
   h_mark_boundary := cemit SMark;
@@ -144,7 +172,8 @@ Definition chk_handlers (nzf : bool) : handlers cks := {|
     let r := w_r s in
     match r_assoc r with
     | [] =>
-        if (r_qa r =? QA_INFO_NA)%N && negb (dirty s) then
+        if ((r_qa r =? QA_INFO_NA)%N || ((r_qa r =? QA_INFO_WAITING)%N && negb (ck_c33 (w_c s))))
+           && negb (dirty s) then
           cemit (SBitmapped id (mkProps (r_new_nbytes r) (r_nbits_offset r) (r_scale_offset r) (r_bsr r))) s
         else Err EOther
     | _ :: _ => Err EOther
@@ -153,14 +182,18 @@ Definition chk_handlers (nzf : bool) : handlers cks := {|
 
 Definition chk_add_link (idx : N) (s : ws cks) : result (ws cks) := Ok s.
 
-Definition chk_run (nzf : bool) (T : descs) : result (ws cks) :=
-  walk_list (chk_handlers nzf) chk_add_link T (mkWs regs0 (mkCk SNil 0)).
+(* [c33] : may the start state already hold a decoded class 33 element descriptor? *)
+Definition chk_run (nzf c33 : bool) (T : descs) : result (ws cks) :=
+  walk_list (chk_handlers nzf) chk_add_link T (mkWs regs0 (mkCk SNil 0 c33)).
 
-(* the side condition of the theorem; [ok_c08_nz] additionally accepts delayed
-   replications whose body changes the compile-time registers in the repeatable
-   way, for coders whose replication factors are never 0 *)
-Definition ok_c08 (T : descs) : bool := is_ok (chk_run false T).
-Definition ok_c08_nz (T : descs) : bool := is_ok (chk_run true T).
+(* the side condition of the theorem, for a start state without decoded class 33
+   element descriptors (in particular the empty list of a fresh subset);
+   [ok_c08_nz] additionally accepts delayed replications whose body changes the
+   compile-time registers in the repeatable way, for coders whose replication
+   factors are never 0; [ok_c08_any] is the condition for an arbitrary start state *)
+Definition ok_c08 (T : descs) : bool := is_ok (chk_run false false T).
+Definition ok_c08_nz (T : descs) : bool := is_ok (chk_run true false T).
+Definition ok_c08_any (T : descs) : bool := is_ok (chk_run false true T).
 
 (* a primitive family that refuses a replication factor 0 *)
 Definition nz_prims {C} (P : prims C) : prims C :=
